@@ -16,7 +16,7 @@ field of `DialogueRunner` is written, which methods are called on it where) and 
   model threads exactly those fields and proves they do not matter).
 
 A new cache field that `RestoreAt` forgets (or a new `LineParser` field kept from line to line) breaks these facts; a new
-field that is reset properly, renamed fields, reordered statements do not.
+field that is reset properly, renamed fields (fields are found by their type), reordered statements do not.
 -/
 namespace Ysgo.C07Facts
 open Ysgo Generated
@@ -29,8 +29,18 @@ def allCalls (f : String) : List (String × List String) := ((runnerCalls.find? 
 /-- written after construction -/
 def dynamic : List String := (runnerFields.map (·.1)).filter (fun f => (writers f).any (· != "NewDialogueRunner"))
 
+/-- the field of a given Go type ("" if there is none): fields are recognised by what they are, not by what they are called -/
+def fieldOfType (t : String) : String := ((runnerFields.find? (·.2 == t)).map (·.1)).getD ""
+
+def stackField : String := fieldOfType "container.Stack[*statementQueue]"
+def storerField : String := fieldOfType "variable.Storer"
+def dialogueField : String := fieldOfType "*tree.Dialogue"
+def functionsField : String := fieldOfType "*functionStorer"
+def commandsField : String := fieldOfType "*commandStorer"
+def parserField : String := fieldOfType "markup.LineParser"
+
 /-- the containers of the model: mutated through their methods -/
-def knownContainers : List String := ["dialogue", "statementsToRun", "variableStorer", "functionStorer", "commandStorer", "lineParser"]
+def knownContainers : List String := [dialogueField, stackField, storerField, functionsField, commandsField, parserField]
 
 theorem dynamic_state_reset_by_restore : dynamic.all (fun f => (writers f).contains "RestoreAt") = true := by decide
 
@@ -39,20 +49,25 @@ theorem method_mutated_fields_are_model_containers :
   decide
 
 theorem containers_reset_by_restore :
-    (callsIn "statementsToRun" "RestoreAt").contains "Clear" = true ∧ (callsIn "statementsToRun" "RestoreAt").contains "Push" = true ∧
-    (callsIn "variableStorer" "RestoreAt").contains "Clear" = true := by decide
+    (callsIn stackField "RestoreAt").contains "Clear" = true ∧ (callsIn stackField "RestoreAt").contains "Push" = true ∧
+    (callsIn storerField "RestoreAt").contains "Clear" = true := by decide
 
 /-- the dialogue is only looked up; the registries are only called outside the host's registration functions -/
 theorem dialogue_and_registries_not_mutated_by_running :
-    (allCalls "dialogue").all (fun p => p.2.all (· == "FindNode")) = true ∧
-    (allCalls "functionStorer").all (fun p => ["AddFunction", "ConvertAndAddFunction"].contains p.1 || p.2.all (· == "call")) = true ∧
-    (allCalls "commandStorer").all (fun p => ["AddCommand", "ConvertAndAddCommand"].contains p.1 || p.2.all (· == "call")) = true := by decide
+    (allCalls dialogueField).all (fun p => p.2.all (· == "FindNode")) = true ∧
+    (allCalls functionsField).all (fun p => ["AddFunction", "ConvertAndAddFunction"].contains p.1 || p.2.all (· == "call")) = true ∧
+    (allCalls commandsField).all (fun p => ["AddCommand", "ConvertAndAddCommand"].contains p.1 || p.2.all (· == "call")) = true := by decide
 
-/-- the fields the model knows as components are there (so the facts above are about something) -/
+/-- the components the model knows are there (so the facts above are about something): the six containers, each found by its
+type, and the state written while running — the pending choice, the pending command, the current node, the visit counters,
+the entry checkpoint: a pointer into the tree, a channel, a string, two maps -/
 theorem model_components_present :
-    ["statementsToRun", "lastStatement", "variableStorer", "commandErrChan", "lineParser", "currentNode", "visitedNodes",
-      "variableSnapshot"].all (fun f => (runnerFields.map (·.1)).contains f) = true ∧
-    ["lastStatement", "commandErrChan", "currentNode", "visitedNodes", "variableSnapshot"].all (fun f => dynamic.contains f) = true := by
+    knownContainers.all (· != "") = true ∧
+    (fieldOfType "*tree.Statement" != "" && dynamic.contains (fieldOfType "*tree.Statement")) = true ∧
+    (fieldOfType "chan error" != "" && dynamic.contains (fieldOfType "chan error")) = true ∧
+    (fieldOfType "string" != "" && dynamic.contains (fieldOfType "string")) = true ∧
+    (fieldOfType "map[string]int" != "" && dynamic.contains (fieldOfType "map[string]int")) = true ∧
+    (fieldOfType "map[string]variable.Value" != "" && dynamic.contains (fieldOfType "map[string]variable.Value")) = true := by
   decide
 
 /-- C14: a `LineParser` carries nothing from one call to the next -/
